@@ -1385,44 +1385,31 @@ func (m *mergeQuery) Properties() queryProp {
 
 func getHashCode(n NodeNavigator) uint64 {
 	var sb bytes.Buffer
-	switch n.NodeType() {
+	// The key is the path of sibling indexes up to the root followed by the node
+	// kind, name and value. Name and value come last and the path contains only
+	// digits and separators, so no name or value can be mistaken for a part of
+	// the path (an element "a-1" with a child "a" used to share the key "a-1-1").
+	typ := n.NodeType()
+	tail := n.Prefix() + ":" + n.LocalName()
+	switch typ {
 	case AttributeNode, TextNode, CommentNode:
-		sb.WriteString(n.LocalName())
-		sb.WriteByte('=')
-		sb.WriteString(n.Value())
+		tail += "=" + n.Value()
+	}
+	for {
 		// https://github.com/antchfx/htmlquery/issues/25
 		d := 1
 		for n.MoveToPrevious() {
 			d++
 		}
-		sb.WriteByte('-')
 		sb.WriteString(strconv.Itoa(d))
-		for n.MoveToParent() {
-			d = 1
-			for n.MoveToPrevious() {
-				d++
-			}
-			sb.WriteByte('-')
-			sb.WriteString(strconv.Itoa(d))
-		}
-	case ElementNode:
-		sb.WriteString(n.Prefix() + n.LocalName())
-		d := 1
-		for n.MoveToPrevious() {
-			d++
-		}
-		sb.WriteByte('-')
-		sb.WriteString(strconv.Itoa(d))
-
-		for n.MoveToParent() {
-			d = 1
-			for n.MoveToPrevious() {
-				d++
-			}
-			sb.WriteByte('-')
-			sb.WriteString(strconv.Itoa(d))
+		sb.WriteByte('/')
+		if !n.MoveToParent() {
+			break
 		}
 	}
+	sb.WriteString(strconv.Itoa(int(typ)))
+	sb.WriteByte('|')
+	sb.WriteString(tail)
 	h := fnv.New64a()
 	h.Write(sb.Bytes())
 	return h.Sum64()
